@@ -7,3 +7,4 @@ mkdir -p .cache work evidence replays
 (cd lean && lake build)
 [ -f harness/Cargo.lock ] || cp /repo/Cargo.lock harness/Cargo.lock
 (cd harness && cargo build --offline)
+cargo build --offline --no-default-features --manifest-path /repo/Cargo.toml --target-dir .cache/n2bin
